@@ -400,6 +400,8 @@ int request::on_content_start()
 {
 	if(d->content_length == 0)
 		return 0;
+	if(d->content_length < 0)
+		return 400;
 	if(lazy_content_type().is_multipart_form_data()) {
 		if(d->content_length > d->limits.multipart_form_data_limit())
 			return 413;
